@@ -21,13 +21,13 @@ RULE = ("environments = DIP text with 3-7 typed nodes (float/int with units of 7
 ASSUMPTIONS = [
     "linear units only (no temperature/logarithmic units, no dimensionless base units such as rad or %); Quantity arithmetic "
     "itself is property C06 - here the numeric result in the requested unit is compared (rel. 1e-9 of the error scale of the tree)",
-    "function arguments are dimensionless (except sqrt and the base of pow), pow exponents are small integers; '**' is not part of the documented grammar",
+    "function arguments are dimensionless (except sqrt and the base of pow), exponents of pow() and ** are small integers",
+    "a blank-delimited prefix sign (' - x') is generated at the start of an expression and after a binary operator, not as the first "
+    "token inside parentheses or a function argument (the argument text is stripped before it is solved, so the sign symbol is not seen there)",
     "a blank follows an argument separator; atoms are plain decimal literals with an optional unit, {?name} references to scalar "
     "nodes of the same text, true/false, !{?name}",
     "comparisons are judged only when the verdict is robust: same result in the unit of either operand and at least 10% away from "
     "the tolerance boundary 1e-8 + 1e-6*|b| (np.isclose as used by the code); int-node versus float-node comparison is refused by the code and not judged",
-    "expression results that are exactly 0 / assigned to a node without unit run into DIP value assignment (C14 / known finding), "
-    "they are exercised and reported under their own signatures",
     "malformed strings (outside the three grammars) are compared for information only: rejecting them is property C01",
     "format()/str() of Python are parameters of the template specification",
 ]
@@ -186,12 +186,14 @@ def node_rows(E):
 
 
 # ------------------------------------------------------------------ trees
-NUM_LVL = {"mul": 2, "truediv": 2, "add": 3, "sub": 3}
+NUM_LVL = {"pre:add": 1, "pre:sub": 1, "pow": 2, "mul": 3, "truediv": 3, "add": 4, "sub": 4}
 LOG_LVL = {"eq": 1, "ne": 1, "le": 1, "ge": 1, "lt": 1, "gt": 1, "not": 2, "and": 3, "or": 4}
 
 
 def top(e, lvl):
-    return lvl[e[1]] if e[0] in ("bin", "pre") else 0
+    if e[0] == "pre":
+        return lvl.get("pre:" + e[1], lvl.get(e[1], 0))
+    return lvl[e[1]] if e[0] == "bin" else 0
 
 
 def wf_fix(e, lvl, rng=None, extra=0.0):
@@ -207,7 +209,7 @@ def wf_fix(e, lvl, rng=None, extra=0.0):
         r = ["fn2", e[1], wf_fix(e[2], lvl, rng, extra), wf_fix(e[3], lvl, rng, extra)]
     elif k == "pre":
         c = wf_fix(e[2], lvl, rng, extra)
-        if top(c, lvl) >= lvl[e[1]]:
+        if top(c, lvl) >= top(e, lvl):
             c = ["par", c]
         r = ["pre", e[1], c]
     else:
@@ -223,6 +225,32 @@ def wf_fix(e, lvl, rng=None, extra=0.0):
     return r
 
 
+def drop_leading_sign(e):
+    """Remove a prefix sign that is the first token of `e` (see no_sign_after_paren)."""
+    if e[0] == "pre" and e[1] in ("add", "sub"):
+        return drop_leading_sign(e[2])
+    if e[0] == "bin":
+        return ["bin", e[1], drop_leading_sign(e[2]), e[3]]
+    return e
+
+
+def no_sign_after_paren(e):
+    """A parenthesised argument is stripped before it is solved (Expression.pop_left), so a blank-delimited
+    sign cannot be its first token: ' - 3 * 2' is -6 but '( - 3) * 2' is not in the grammar."""
+    k = e[0]
+    if k == "lit":
+        return e
+    if k == "par":
+        return ["par", drop_leading_sign(no_sign_after_paren(e[1]))]
+    if k == "fn1":
+        return ["fn1", e[1], drop_leading_sign(no_sign_after_paren(e[2]))]
+    if k == "fn2":
+        return ["fn2", e[1], drop_leading_sign(no_sign_after_paren(e[2])), drop_leading_sign(no_sign_after_paren(e[3]))]
+    if k == "pre":
+        return ["pre", e[1], no_sign_after_paren(e[2])]
+    return ["bin", e[1], no_sign_after_paren(e[2]), no_sign_after_paren(e[3])]
+
+
 def count_ops(e):
     if e[0] == "lit":
         return []
@@ -231,6 +259,12 @@ def count_ops(e):
     if e[0] == "pre":
         return [e[1]] + count_ops(e[2])
     return sum((count_ops(x) for x in e[1:] if isinstance(x, list)), [])
+
+
+def flat_kinds(e):
+    if e[0] == "lit":
+        return ["lit"]
+    return [e[0]] + sum((flat_kinds(x) for x in e[1:] if isinstance(x, list)), [])
 
 
 def gen_num_leaf(rng, E, dim):
@@ -262,8 +296,16 @@ def gen_num(rng, E, dim, depth, pos=False):
     if r < 0.7:
         l, rr = rng.choice(DIV[dim])
         return ["bin", "truediv", gen_num(rng, E, l, depth - 1, pos), gen_num(rng, E, rr, depth - 1, True)]
-    if r < 0.8:
+    if r < 0.74:
         return ["par", gen_num(rng, E, dim, depth - 1, pos)]
+    if r < 0.77:
+        # a sign in prefix position (folded before **): ' - x', ' + x'
+        return ["pre", "add" if (pos or rng.random() < 0.3) else "sub", gen_num(rng, E, dim, min(depth - 1, 1), pos)]
+    if r < 0.85 and dim in ("0", "L2"):
+        # the ** operator (binds tighter than * /), integral exponents
+        if dim == "0":
+            return ["bin", "pow", gen_num(rng, E, "0", depth - 1, True), ["lit", rng.choice(["2", "3", "-1", "0", "1"])]]
+        return ["bin", "pow", gen_num(rng, E, "L", depth - 1, True), ["lit", "2"]]
     # functions
     if dim == "0":
         f = rng.choice(["exp", "log", "log10", "sin", "cos", "tan", "sqrt", "logb", "powb"])
@@ -327,6 +369,10 @@ def num_sig(ast):
     ops = count_ops(ast)
     if any(o in ("exp", "log", "log10", "sqrt", "sin", "cos", "tan", "logb", "powb") for o in ops):
         return "fn"
+    if any(e_ == "pre" for e_ in flat_kinds(ast)):
+        return "sign"
+    if "pow" in ops:
+        return "power"
     if ("add" in ops or "sub" in ops) and ("mul" in ops or "truediv" in ops):
         return "priority"
     return "arith"
@@ -359,7 +405,7 @@ def num_stream(ctx, tabs, envs, count, corpus):
         else:
             ast = gen_num(rng, E, dim, rng.randint(1, 4))
             kind = "gen"
-        ast = wf_fix(ast, NUM_LVL, rng, 0.05)
+        ast = no_sign_after_paren(wf_fix(ast, NUM_LVL, rng, 0.05))
         out = rng.choice(E.units[dim]) if kind == "gen" else rng.choice(E.units[dim])
         blanks = [rng.choice([0, 0, 0, 1, 2]) for _ in range(40)]
         cases.append((E, units, ast, blanks, out, kind))
@@ -386,7 +432,7 @@ def num_stream(ctx, tabs, envs, count, corpus):
             continue
         imp = impl_num(E, text, out)
         replay["impl"], replay["spec"], replay["model"] = imp, m["spec"], m["model"]
-        ctx.case([E.text, text, out], len(set(NUM_LVL.get(o, 9) for o in ops)) >= 2 or "[" in text or " cm" in text,
+        ctx.case([E.text, text, out], len(set(NUM_LVL.get(o, 9) for o in ops if o in NUM_LVL)) >= 2 or "[" in text or " cm" in text,
                  {"num": text, "out": out, "impl": imp})
         def both_nan(a, b):
             return isinstance(a, float) and isinstance(b, float) and math.isnan(a) and math.isnan(b)
@@ -423,7 +469,7 @@ def dip_num_stream(ctx, tabs, envs, count):
     for _ in range(count):
         E, units = rng.choice(envs)
         dim = rng.choice([d for d in DIMS if d != "0"] + ["0"])
-        ast = wf_fix(gen_num(rng, E, dim, rng.randint(1, 3)), NUM_LVL)
+        ast = no_sign_after_paren(wf_fix(gen_num(rng, E, dim, rng.randint(1, 3)), NUM_LVL))
         out = rng.choice(E.units[dim])
         cases.append((E, units, ast, [0] * 40, out))
     # recon: zero result and unit-less node
@@ -442,6 +488,8 @@ def dip_num_stream(ctx, tabs, envs, count):
             continue
         m = {k: dec(v) for k, v in r["ok"].items()}
         spec = m["spec"]
+        if spec == "dimensional":
+            spec = "err"     # a result with dimensions is refused by a node without unit
         if "'" in m["text"] or not (finite(spec) or spec == "err"):
             continue
         text = E.text + "\nres float = ('%s')%s" % (m["text"], " " + out if out else "")
@@ -501,6 +549,9 @@ def gen_cmp(rng, E, units_tab):
         else:
             u2 = rng.choice(E.units[dim]) if rng.random() < 0.8 else None
             target = val * (kmap[unit] / kmap[u2] if u2 else 1.0) * (1 + delta)
+        if kind == "int" and rng.random() < 0.5:
+            # an integer node against a bound between the integers (written directly or arising from the unit conversion)
+            target = (val + rng.choice([0.5, -0.5, 0.3, -0.3, 0.999999])) * ((kmap[unit] / kmap[u2]) if (unit and u2) else 1.0)
         lit = ["lit", fmt_num(target) + (" " + u2 if u2 else "")]
         a, b = ["lit", "{?%s}" % n], lit
         if rng.random() < 0.35:
@@ -809,6 +860,10 @@ def malformed_stream(ctx, tabs, envs, count):
 
 # ------------------------------------------------------------------ corpus (recon inputs, past failures)
 NUM_CORPUS = [
+    {"ast": ["bin", "sub", ["lit", "1"], ["bin", "pow", ["pre", "sub", ["lit", "2"]], ["lit", "2"]]], "out": None},
+    {"ast": ["bin", "add", ["lit", "1"], ["bin", "pow", ["pre", "sub", ["lit", "2"]], ["lit", "2"]]], "out": None},
+    {"ast": ["bin", "pow", ["pre", "sub", ["lit", "2 m"]], ["lit", "2"]], "out": "cm2"},
+    {"ast": ["bin", "mul", ["lit", "3"], ["bin", "pow", ["pre", "sub", ["lit", "2"]], ["lit", "3"]]], "out": None},
     {"ast": ["bin", "add", ["lit", "1 [x]"], ["lit", "1 m"]], "out": "m", "env": -1},
     {"ast": ["bin", "add", ["bin", "mul", ["lit", "2"], ["lit", "3 m"]], ["bin", "truediv", ["lit", "4 m2"], ["lit", "2 m"]]], "out": "cm"},
     {"ast": ["bin", "sub", ["bin", "sub", ["lit", "10 m"], ["lit", "1 m"]], ["lit", "3 cm"]], "out": "m"},
